@@ -93,6 +93,7 @@ func (f *FileOutputHandler) Write(
 					Hash:      fileHash,
 					SizeBytes: fileInfo.Size(),
 				},
+				IsExecutable: fileInfo.Mode()&0111 != 0,
 			},
 		},
 	}, nil
@@ -108,9 +109,9 @@ func (f *FileOutputHandler) Load(
 	existingHash, err := hashing.HashFile(absOutputPath)
 
 	// If the local hash is the same as the cached one we don't need to
-	// load the file from the CAS
+	// load the file from the CAS (only the executable bit may need fixing)
 	if err == nil && existingHash == output.GetFile().GetDigest().GetHash() {
-		return nil
+		return restoreExecutableBit(absOutputPath, output.GetFile().GetIsExecutable())
 	}
 
 	progress := tracker
@@ -154,5 +155,23 @@ func (f *FileOutputHandler) Load(
 		return err
 	}
 
-	return nil
+	return restoreExecutableBit(absOutputPath, output.GetFile().GetIsExecutable())
+}
+
+// restoreExecutableBit makes the executable bit of a restored file match what was cached.
+func restoreExecutableBit(path string, isExecutable bool) error {
+	info, err := os.Stat(path)
+	if err != nil {
+		return err
+	}
+	mode := info.Mode().Perm()
+	if isExecutable {
+		mode |= 0111
+	} else {
+		mode &^= 0111
+	}
+	if mode == info.Mode().Perm() {
+		return nil
+	}
+	return os.Chmod(path, mode)
 }
